@@ -72,14 +72,15 @@ theorem validate_channel (T : ScopeTable) (d : Depth) (S : Schema) (D : Frame) :
   | crash => exact absurd hp (parse_never_crashes S D)
   | ok P pe =>
     simp only
-    by_cases he : (pe ++ frameErrors T d S P).isEmpty = true
+    generalize hes : pe ++ strictOrderedErrors S D ++ coreCheckErrors T d S P = es
+    by_cases he : es.isEmpty = true
     · simp [he]
     · simp only [he, Bool.false_eq_true, ↓reduceIte]
-      have hne : pe ++ frameErrors T d S P ≠ [] := by
+      have hne : es ≠ [] := by
         intro h; rw [h] at he; simp at he
       by_cases hd : S.dropInvalid = true
       · simp only [hd, ↓reduceIte]
-        by_cases hn : (pe ++ frameErrors T d S P).any (fun e => e.cells.isEmpty) = true
+        by_cases hn : es.any (fun e => e.cells.isEmpty) = true
         · simp only [hn, ↓reduceIte]; exact Or.inr ⟨_, hne, rfl⟩
         · simp only [hn, Bool.false_eq_true, ↓reduceIte]; exact Or.inl ⟨_, rfl⟩
       · simp only [hd, Bool.false_eq_true, ↓reduceIte]; exact Or.inr ⟨_, hne, rfl⟩
